@@ -1,5 +1,72 @@
-"""first-order part of C16 (filled in when the fol stream exists)"""
+"""first-order part of C16: reset_bounds() + infer() reproduces the first run exactly (bounds of every grounding;
+the number of sweeps is deliberately not compared: a second run legitimately needs fewer, rows already exist)."""
+import random
+
+import streams
+from checks._folcommon import tabs_of
+from common import sub_seed
+
+
+def oracle(rec):
+    if rec.get("safe_upto", len(rec["lines"])) < len(rec["lines"]):
+        return None
+    ts = [t for t in tabs_of(rec) if t[1].startswith("finfer")]
+    if len(ts) < 2:
+        return None
+    first, last = ts[0][3], ts[-1][3]
+    contra = any(o == "c 1" for o in rec["impl"] if o)
+    fg = any(n.get("fully_grounded") for n in rec["prog"]["kb"]["nodes"])
+    for i, rows in first.items():
+        for g, b in rows.items():
+            b2 = last.get(i, {}).get(g)
+            if b2 != b:
+                return {"problem": "bounds after reset_bounds()+infer() differ from the first run", "formula": i, "grounding": g,
+                        "first": list(map(str, b)), "again": None if b2 is None else list(map(str, b2)), "contradictory_data": contra, "fully_grounded": fg}
+    for i, rows in last.items():
+        for g, b in rows.items():
+            if g not in first.get(i, {}):
+                return {"problem": "second run has a grounding the first run did not have", "formula": i, "grounding": g,
+                        "contradictory_data": contra, "fully_grounded": fg}
+    if rec["meta"]["errors"]:
+        return {"exception": rec["meta"]["errors"]}
+    return None
 
 
 def run(rep, tier, seed):
-    return
+    # known finding D11: replay its witness first; it is suppressed only while the witness still fails
+    import json, os, shrink
+    from common import VERIF
+    w = streams.fix_prog(json.load(open(os.path.join(VERIF, "corpus/C16/known_d11_contradictory_rerun.json")))["program"])
+    w["facts"] = [tuple(f) for f in w["facts"]]
+    wrec = shrink.run_one("fol", "run_fol_program", w)
+    wbad = None if "crash" in wrec else oracle(wrec)
+    rep.extra["known_finding_D11_witness_reproduces"] = bool(wbad)
+    if wbad and wbad.get("contradictory_data"):
+        rep.enable_known("D11")
+    w = streams.fix_prog(json.load(open(os.path.join(VERIF, "corpus/C16/known_d14_fully_grounded_growth.json")))["program"])
+    w["facts"] = [tuple(f) for f in w["facts"]]
+    wrec = shrink.run_one("fol", "run_fol_program", w)
+    wbad = None if "crash" in wrec else oracle(wrec)
+    rep.extra["known_finding_D14_witness_reproduces"] = bool(wbad)
+    if wbad and wbad.get("fully_grounded") and not wbad.get("contradictory_data"):
+        rep.enable_known("D14")
+    n = 80 if tier == "quick" else 1500
+    for name, quant in (("fol-qf", False), ("quant", True)):
+        progs = [streams.gen_fol_program(seed + 41, k, quant=quant, n_ops=(0, 6)) for k in range(n)]
+        for k, p in enumerate(progs):
+            rng = random.Random(sub_seed(seed, "c16f", k))
+            mid = list(p["ops"])
+            if rng.random() < 0.5:
+                mid.insert(rng.randint(0, len(mid)), ("print",))
+            p["ops"] = [("infer", 60)] + mid + [("resetb",), ("infer", 60)]
+        recs, first = streams.run_fol_stream(rep, name, progs, {"tables", "reported"})
+        for r in recs:
+            if "crash" in r:
+                continue
+            rep.count_case(streams.canon(r["prog"]), True)
+            bad = oracle(r)
+            if bad:
+                rep.violation("fol-history-dependence", bad, {"program": streams.ser(r["prog"]), "failure": bad,
+                                                              "protocol": r["lines"], "impl": r["impl"]})
+        if first is not None and not rep.violations:
+            rep.extra.setdefault("first_disagreement_" + name, {"program": streams.ser(first["prog"]), "at": first["disagreements"][:3]})
